@@ -395,7 +395,7 @@ pub fn run_c11(cx: &Ctx) -> i32 {
     let alphabet = spaces::sigma4();
     let max_len = 3;
     let texts = space::texts(&alphabet, max_len);
-    let templates: Vec<&str> = vec!["x", "$0", "$1", "${g1}", "$$", "<$0|$1>", ""];
+    let templates: Vec<&str> = vec!["x", "$0", "$1", "${g1}", "$$", "<$0|$1>", "", "$é", "[$π]"];
     let tallies = par::run_workers(32, |_w, claimer| {
         engine::quiet_panics();
         engine::set_sweep_horizons(40_000, 5_000);
